@@ -2,7 +2,9 @@ package chunkparser
 
 import (
 	"encoding/binary"
+	"fmt"
 	"io"
+	"math"
 )
 
 // MP4ChunkParser is a parser for fragmented mp4 content.
@@ -56,6 +58,10 @@ func (p *MP4ChunkParser) Parse() error {
 		}
 		size := binary.BigEndian.Uint32(p.buf[nextBoxStart : nextBoxStart+4])
 		currBox = string(p.buf[nextBoxStart+4 : nextBoxStart+8])
+		if size < 8 || size > math.MaxUint32-nextBoxStart {
+			// A box is at least its 8-byte header. Sizes 0 and 1 (to end of file, 64-bit size) are not supported.
+			return fmt.Errorf("box %q at offset %d has unsupported size %d", currBox, nextBoxStart, size)
+		}
 		nextBoxStart += size
 		switch currBox {
 		case "moov":
